@@ -37,6 +37,7 @@ class World:
         self.kind = []
         self.proxies = {}  # (pool idx of instance, pool idx of inner pin) -> the one proxy OuterPin object
         self.held = []     # caller-owned collections built by the seed and kept across the events of a history
+        self.views = []    # (owner, attribute, view object obtained at seed time): views the caller keeps
 
     def add(self, obj):
         i = self.index.get(id(obj))
